@@ -2,6 +2,10 @@
 Require Import V.Lib V.C10_Model V.C10_Proofs.
 Open Scope N_scope.
 
+(* ---------------------------------------------------------------------------------------- *)
+(* 1. LEXER                                                                                   *)
+(* ---------------------------------------------------------------------------------------- *)
+
 (* Structure preservation at the token level: EVERY list of token texts — any runes, including
    spaces, line breaks, quotes, '#', braces — whose backslashes can be written inside quotes,
    printed quoted with a space or a line break after each token, lexes back to exactly those
@@ -34,3 +38,196 @@ Theorem C10_trailing_backslash_unquotable_refuted :
   exists t, map t_text (lex (print [(t, true)])) <> [t].
 Proof. exists [BSL]. vm_compute. discriminate. Qed.
 Print Assumptions C10_trailing_backslash_unquotable_refuted.
+
+(* Totality: [lex] is a total function on ALL rune lists (it has no checked operation: the only
+   panic of lexer.next is a reader error other than EOF). It consumes the whole input, and what is
+   preserved is this: the concatenation of the token texts is a SUBSEQUENCE of the input — the lexer
+   only drops characters (separators, comments, quotes, the backslash of an escaped quote); it never
+   invents, duplicates or reorders one — for every input, including unbalanced quotes. *)
+Theorem C10_lex_total_subsequence : forall inp, subseq (texts (lex inp)) inp.
+Proof. exact lex_subseq. Qed.
+Print Assumptions C10_lex_total_subsequence.
+
+Theorem C10_lex_output_bounded : forall inp, (length (texts (lex inp)) <= length inp)%nat.
+Proof. exact lex_texts_length. Qed.
+Print Assumptions C10_lex_output_bounded.
+
+(* ---------------------------------------------------------------------------------------- *)
+(* 2. PARSER STRUCTURE                                                                        *)
+(* ---------------------------------------------------------------------------------------- *)
+
+(* Token level, for ALL lists of server blocks (any number of keys with or without trailing commas,
+   any number of directive lines, any arguments, sub-blocks nested to any depth) that satisfy the
+   boolean guard [block_ok] (braces balance, depth-0 tokens of a directive are on its line, the next
+   line starts on a new line, no key/line-start token is `{`/`}`/import, not a snippet definition),
+   for every environment, import bound and file oracle: parsing the flattened tokens returns exactly
+   those blocks — keys in order (environment expanded, commas stripped) and, per directive name,
+   the directive tokens in file order (the name as written, the rest environment-expanded). The
+   fuel needed is the number of tokens + 2: the parse of a well-formed text never runs out of fuel. *)
+Theorem C10_parse_structure_tokens : forall env maxi globs files bs fuel,
+  forallb (block_ok env) bs = true -> (length (flat_blocks bs) + 1 < fuel)%nat ->
+  parse_tokens env maxi globs files fuel (flat_blocks bs) = POk (map (block_res env) bs).
+Proof. exact parse_structure_tokens. Qed.
+Print Assumptions C10_parse_structure_tokens.
+
+(* Text level: for every configuration AST printed by the proved printer (every token quoted, a
+   space or line break after it), the parser of the printed TEXT returns the blocks of the AST. *)
+Theorem C10_parse_structure : forall env bs,
+  forallb (fun p => okq (fst p)) (a_flat_all bs) = true ->
+  forallb (block_ok env) (annot_blocks 0 1%Z bs) = true ->
+  parse env (print (a_flat_all bs)) = POk (map (block_res env) (annot_blocks 0 1%Z bs)).
+Proof. exact parse_structure. Qed.
+Print Assumptions C10_parse_structure.
+
+Local Open Scope string_scope.
+Example C10_parse_structure_nonvacuous :
+  let env := [(bs "HOST", bs "example.com")] in
+  let t (s : string) (nl : bool) : ltok := (bs s, nl) in
+  let cfg := [ {| a_key := t "{$HOST}," true; a_keys := [t "www.{$HOST}" false];
+                  a_lines := [ (t "root" false, [t "/var/www" true]);
+                               (t "proxy" false, [t "/" false; t "b:80" false; t "{" true;
+                                                  t "header_upstream" false; ([72; 10; 105], false); t "x y" true;
+                                                  t "sub" false; t "{" true; t "opt" false; t "import" false; t "deep" true; t "}" true;
+                                                  t "}" true]);
+                               (t "root" false, [t "/other" true]) ] |};
+               {| a_key := t ":2015" false; a_keys := []; a_lines := [ (t "gzip" true, []) ] |} ] in
+  forallb (fun p => okq (fst p)) (a_flat_all cfg) = true /\
+  forallb (block_ok env) (annot_blocks 0 1%Z cfg) = true /\
+  texts_of (parse env (print (a_flat_all cfg))) =
+  Some [ ([bs "example.com"; bs "www.example.com"],
+          [(bs "root", [bs "root"; bs "/var/www"; bs "root"; bs "/other"]);
+           (bs "proxy", [bs "proxy"; bs "/"; bs "b:80"; bs "{"; bs "header_upstream"; [72; 10; 105]; bs "x y";
+                         bs "sub"; bs "{"; bs "opt"; bs "import"; bs "deep"; bs "}"; bs "}"])]);
+         ([bs ":2015"], [(bs "gzip", [bs "gzip"])]) ].
+Proof. vm_compute. auto. Qed.
+Local Close Scope string_scope.
+
+(* The guard is needed for environment values: a value containing a line break glues the next line
+   onto the directive (isNewLine counts the breaks of the SUBSTITUTED previous token); the directive
+   `root` disappears. Reproduced on the implementation (known finding F-C10-3). *)
+Theorem C10_env_value_with_line_break_refuted :
+  exists env inp, texts_of (parse env inp) =
+    Some [([bs "a.com"%string], [(bs "header"%string, [bs "header"%string; [108; 49; 10; 108; 50]; bs "root"%string; bs "/x"%string])])].
+Proof.
+  exists [(bs "V"%string, [108; 49; 10; 108; 50])], (bs "a.com {
+	header {$V}
+	root /x
+}
+"%string).
+  vm_compute. reflexivity.
+Qed.
+Print Assumptions C10_env_value_with_line_break_refuted.
+
+(* ---------------------------------------------------------------------------------------- *)
+(* 3. TERMINATION, IMPORT CYCLES, ENVIRONMENT EXPANSION                                       *)
+(* ---------------------------------------------------------------------------------------- *)
+
+(* Import cycles are an ERROR, never OutOfFuel: for every import graph in which every file reachable
+   from the importing server block has the shape "directive lines; import <next>; anything" (so the
+   chain of imports never ends: cycles of every length, with any lead-in path), for every bound
+   maxi, every environment, every set of keys, the parse returns the too-many-imports error, given
+   fuel (maxi+1)*(L+2) + L + |keys| + 3 where L bounds the tokens in front of an import. *)
+Theorem C10_parse_cycle_is_error : forall env maxi globs files graph L,
+  closed_chain env globs files graph L -> forall id0 entry k ks lb post fuel,
+  graph id0 = Some entry ->
+  keys_ok env k ks = true -> is_snippet (map (key_of env) (k :: ks)) = false -> t_text lb = LBRACE ->
+  Forall (far graph) post ->
+  (S (N.to_nat maxi) * (L + 2) + L + length ks + 3 <= fuel)%nat ->
+  parse_tokens env maxi globs files fuel (k :: ks ++ lb :: node_toks entry ++ post) = PErr ECycle.
+Proof. exact parse_cycle_error. Qed.
+Print Assumptions C10_parse_cycle_is_error.
+
+(* the hypotheses hold for the tokens of a real pair of texts: a block importing c.conf, which
+   imports itself after one directive line and before another *)
+Example C10_parse_cycle_is_error_nonvacuous :
+  closed_chain [] CycleExample.globs CycleExample.files CycleExample.graph 2 /\
+  CycleExample.graph 0 = Some CycleExample.entry /\
+  Forall (far CycleExample.graph) [CycleExample.rb] /\
+  parse_tokens [] 50 CycleExample.globs CycleExample.files 300
+    (CycleExample.tk 0 1 "a.com"%string :: [] ++ CycleExample.tk 0 1 "{"%string :: node_toks CycleExample.entry ++ [CycleExample.rb]) = PErr ECycle.
+Proof.
+  split; [exact CycleExample.chain_closed|]. split; [reflexivity|]. split; [exact CycleExample.rb_far|].
+  vm_compute. reflexivity.
+Qed.
+
+(* Fuel sufficiency on the import-free side is part of C10_parse_structure_tokens (fuel = tokens+2).
+   The lines in front of an import are consumed with exactly one unit of fuel each, for any
+   continuation: *)
+Theorem C10_directives_fuel_linear : forall env maxi globs files ls done nxt post f st,
+  at_end st done (flat_lines ls ++ nxt :: post) ->
+  lines_ok env ls nxt = true -> (length (flat_lines ls) < f)%nat ->
+  directives env maxi globs files (length ls + f) st =
+  directives env maxi globs files f
+    (st_with st (done ++ exp_lines env ls ++ nxt :: post) (Z.of_nat (length (done ++ exp_lines env ls)) - 1)
+             (push_lines env (p_btoks st) ls)).
+Proof. exact directives_lines. Qed.
+Print Assumptions C10_directives_fuel_linear.
+
+(* Environment expansion is a single left-to-right pass: one step outputs the text before the
+   reference, then the VALUE VERBATIM, then the expansion of the REST OF THE INPUT only — the
+   substituted value is never scanned again, whatever it contains. For all inputs and environments. *)
+Theorem C10_env_expansion_single_pass : forall f env s rs re i e0,
+  index_sub s rs = Some i -> index_sub (skipn i s) re = Some e0 -> Nat.ltb (length rs) e0 = true ->
+  replace_refs (S f) env [] s rs re =
+  firstn i s ++ getenv env (firstn (e0 - length rs) (skipn (i + length rs) s)) ++
+  replace_refs f env [] (skipn (i + e0 + length re) s) rs re.
+Proof. exact replace_refs_step. Qed.
+Print Assumptions C10_env_expansion_single_pass.
+
+(* ... and it terminates: the fuel the model uses (length+1) is enough, more never changes the result *)
+Theorem C10_env_expansion_terminates : forall n f env done s rs re,
+  (length s < n)%nat -> (n <= f)%nat -> re <> [] ->
+  replace_refs f env done s rs re = replace_refs n env done s rs re.
+Proof. exact replace_refs_fuel. Qed.
+Print Assumptions C10_env_expansion_terminates.
+
+Example C10_env_expansion_nonvacuous :
+  (* V = "x{$V}" : the self-reference is substituted once and left alone *)
+  replace_env [(bs "V"%string, bs "x{$V}"%string)] (bs "a{$V}b{$V}"%string) = Some (bs "ax{$V}bx{$V}"%string) /\
+  index_sub (bs "a{$V}b"%string) (bs "{$"%string) = Some 1%nat.
+Proof. vm_compute. auto. Qed.
+
+(* ---------------------------------------------------------------------------------------- *)
+(* 4. IMPORTS                                                                                 *)
+(* ---------------------------------------------------------------------------------------- *)
+
+(* What an import does to the Dispenser, for every state: exactly the two tokens `import <pattern>`
+   are replaced by the tokens of the matched files, in glob order, the cursor is left on the token
+   before them and the counter is incremented; everything before and after is untouched, so the
+   parse continues on the spliced token list exactly as it would on that list written inline. *)
+Theorem C10_import_splice_partial : forall env maxi globs files st pre imp arg post pat toks,
+  at_pos st pre imp (arg :: post) -> import_ready env globs files st imp arg post pat toks ->
+  (maxi <? p_imports st + 1)%N = false ->
+  do_import env maxi globs files st = POk (st_imp st (pre ++ toks ++ post) (Z.of_nat (length pre))).
+Proof. exact do_import_ok. Qed.
+Print Assumptions C10_import_splice_partial.
+
+(* The full statement "a configuration split into snippets parses like the inline text" is FALSE of
+   the faithful model (and of the implementation: known findings F-C10-4/5): spliced snippet tokens
+   keep the line numbers of their definition, and an `import` at the start of a snippet body used
+   inside a sub-block after a later line is not expanded. *)
+Theorem C10_import_equiv_snippet_refuted :
+  exists split inline, texts_of (parse [] inline) <> None /\ texts_of (parse [] split) <> texts_of (parse [] inline).
+Proof.
+  exists (bs "(t) {
+	inner1 x
+}
+(s) {
+	import t
+}
+a.com {
+	proxy / b {
+		opt y
+		import s
+	}
+}
+"%string), (bs "a.com {
+	proxy / b {
+		opt y
+		inner1 x
+	}
+}
+"%string).
+  vm_compute. split; discriminate.
+Qed.
+Print Assumptions C10_import_equiv_snippet_refuted.
